@@ -1,5 +1,7 @@
 """Shared analysis of src/python_minifier/__main__.py for C13-C16 (write sinks, payload provenance, open() calls)."""
 import ast
+import copy
+import re
 
 from ..astutil import calls, expanded_facts, local_defs, kwarg
 from ..facts import Facts
@@ -167,3 +169,246 @@ class MainAnalysis(object):
         if len(cs) != 1:
             raise AnalysisError('expected exactly one call to python_minifier.minify in do_minify, found %d' % len(cs))
         return cs[0]
+
+
+    # ------------------------------------------------------------------ helpers that wrap a sink: lifted to their call sites
+    def main_functions(self):
+        return [f for f in self.m.funcs.values() if f.module == MAIN and f.name not in self.stdout_wrappers]
+
+    def ensure(self, fi):
+        if fi.qual not in self.facts:
+            self.facts[fi.qual] = Facts(fi.node)
+            self.defs[fi.qual] = local_defs(fi.node)
+
+    def call_sites(self, callee):
+        out = []
+        for g in self.main_functions():
+            if g is callee:
+                continue
+            self.ensure(g)
+            for c in calls(g.node):
+                if isinstance(c.func, ast.Name) and self.m.resolve_name(MAIN, c.func.id) == callee.qual:
+                    out.append((g, c))
+        return out
+
+    @staticmethod
+    def _argmap(callee, call):
+        m = {}
+        pos = callee.positional
+        for i, a in enumerate(call.args):
+            if i < len(pos) and not isinstance(a, ast.Starred):
+                m[pos[i]] = a
+        for kw in call.keywords:
+            if kw.arg:
+                m[kw.arg] = kw.value
+        return m
+
+    @staticmethod
+    def _subst(expr, amap):
+        if expr is None:
+            return None
+
+        class R(ast.NodeTransformer):
+            def visit_Name(self, n):
+                if isinstance(n.ctx, ast.Load) and n.id in amap:
+                    return copy.deepcopy(amap[n.id])
+                return n
+        return R().visit(copy.deepcopy(expr))
+
+    def _lift_facts(self, facts, amap, params):
+        out = set()
+        for (k, p) in facts or ():
+            if k.startswith('<'):
+                if k.startswith('<did:') or k.startswith('<caught:') or k.startswith('<try-catches:') or k.startswith('<in-try:'):
+                    continue  # events / handler context of the helper do not describe the caller
+                continue
+            names = set(re.findall(r'[A-Za-z_][A-Za-z0-9_]*', k))
+            if names & set(params):
+                try:
+                    e = ast.parse(k, mode='eval').body
+                except SyntaxError:
+                    continue
+                if not (set(params) & names) <= set(amap):
+                    continue
+                out.add((src(self._subst(e, amap)), p))
+            else:
+                out.add((k, p))
+        return out
+
+    def is_param(self, fi, e):
+        return isinstance(e, ast.Name) and e.id in fi.params and self.defs[fi.qual].get(e.id) == ['<param>']
+
+    def lifted_sinks(self, depth=3):
+        """Every write sink of the CLI module, expressed in the function that owns the written value: a sink inside a helper whose
+        payload (or target path) is a plain parameter is re-expressed at each call site of the helper, with the caller's facts."""
+        result = []
+        work = []
+        for fi in self.main_functions():
+            self.ensure(fi)
+            for s in self.sinks(fi):
+                if s.facts is not None:
+                    work.append((s, 0))
+        while work:
+            s, d = work.pop()
+            fi = s.func
+            needs = (self.is_param(fi, s.payload) or (s.target is not None and any(self.is_param(fi, n) for n in ast.walk(s.target) if isinstance(n, ast.Name)))) and fi.name != 'main'
+            sites = self.call_sites(fi) if needs else []
+            if not needs or not sites or d >= depth:
+                result.append(s)
+                continue
+            for (g, c) in sites:
+                amap = self._argmap(fi, c)
+                gf = self.facts[g.qual].facts_at(c)
+                if gf is None:
+                    continue
+                facts = frozenset(set(gf) | self._lift_facts(s.facts, amap, fi.params))
+                ns = Sink(s.kind, c, self._subst(s.payload, amap), facts, target=self._subst(s.target, amap), mode=s.mode, func=g)
+                ns.via = getattr(s, 'via', []) + [fi.name]
+                work.append((ns, d + 1))
+        return result
+
+    def lifted_opens(self, depth=3):
+        """[(function, call node used for locations/facts, path expr, mode, facts)] for every open() in the CLI module, lifted like sinks."""
+        out = []
+        work = []
+        for fi in self.main_functions():
+            self.ensure(fi)
+            for (c, path, mode, alias) in self.open_calls(fi):
+                f = self.facts[fi.qual].facts_at(c)
+                if f is not None:
+                    work.append((fi, c, path, mode, f, 0))
+        while work:
+            fi, c, path, mode, f, d = work.pop()
+            needs = path is not None and any(self.is_param(fi, n) for n in ast.walk(path) if isinstance(n, ast.Name)) and fi.name != 'main'
+            sites = self.call_sites(fi) if needs else []
+            if not needs or not sites or d >= depth:
+                out.append((fi, c, path, mode, f))
+                continue
+            for (g, cc) in sites:
+                amap = self._argmap(fi, cc)
+                gf = self.facts[g.qual].facts_at(cc)
+                if gf is None:
+                    continue
+                facts = frozenset(set(gf) | self._lift_facts(f, amap, fi.params))
+                work.append((g, cc, self._subst(path, amap), mode, facts, d + 1))
+        return out
+
+    def payload_kinds(self, fi, e):
+        """{kind: [definition nodes]} of a payload expression in fi: 'minified', 'source', 'none', 'listing', 'other:<text>'."""
+        if e is None:
+            return {'other:no payload': []}
+        if not isinstance(e, ast.Name):
+            if isinstance(e, ast.BinOp) and isinstance(e.op, ast.Add) and isinstance(e.left, ast.Name) and isinstance(e.right, ast.Constant):
+                return {'listing': []}
+            if isinstance(e, ast.Call) and isinstance(e.func, ast.Name) and self.m.resolve_name(fi.module, e.func.id) == self.do_minify.qual:
+                return {'minified': [e]}
+            return {'other:' + src(e): []}
+        kinds = {}
+        for n in walk_own(fi.node):
+            vals = []
+            if isinstance(n, ast.Assign) and any(isinstance(t, ast.Name) and t.id == e.id for t in n.targets):
+                vals = [n.value]
+            elif isinstance(n, (ast.AugAssign, ast.AnnAssign)) and isinstance(n.target, ast.Name) and n.target.id == e.id:
+                vals = ['<aug>']
+            elif isinstance(n, (ast.For, ast.AsyncFor)) and any(isinstance(x, ast.Name) and x.id == e.id for x in ast.walk(n.target)):
+                vals = ['<iter>']
+            for d in vals:
+                if isinstance(d, ast.Call) and isinstance(d.func, ast.Name) and self.m.resolve_name(fi.module, d.func.id) == self.do_minify.qual:
+                    kinds.setdefault('minified', []).append(n)
+                elif isinstance(d, ast.AST) and self.is_binary_read(fi, d):
+                    kinds.setdefault('source', []).append(n)
+                elif isinstance(d, ast.Constant) and d.value is None:
+                    kinds.setdefault('none', []).append(n)
+                elif isinstance(d, ast.Name):
+                    sub = self.payload_kinds(fi, d)
+                    for k, v in sub.items():
+                        kinds.setdefault(k, []).append(n)
+                else:
+                    kinds.setdefault('other:' + (src(d) if isinstance(d, ast.AST) else str(d)), []).append(n)
+        if e.id in fi.params and not kinds:
+            kinds['other:<param %s>' % e.id] = []
+        if not kinds:
+            kinds['other:undefined'] = []
+        return kinds
+
+    def _stable_fact(self, fi, k):
+        """A condition over parameters only (e.g. args.in_place): it has the same value wherever it is evaluated in one call."""
+        if k.startswith('<'):
+            return False
+        names = set(re.findall(r'(?<![.\w])[A-Za-z_][A-Za-z0-9_]*', k))
+        single = {n for n, ds in self.defs[fi.qual].items() if len(ds) == 1}   # parameters and locals bound exactly once (args = parse_args())
+        callish = {'len', 'isinstance', 'not', 'and', 'or', 'is', 'None', 'True', 'False', 'in'}
+        return bool(names - callish) and (names - callish) <= single
+
+    def prune_kinds(self, fi, kinds, facts):
+        """Drop definitions whose path conditions contradict the sink's (they cannot reach it within one call)."""
+        F = self.facts[fi.qual]
+        out = {}
+        for k, nodes in kinds.items():
+            keep = []
+            for dn in nodes:
+                f2 = F.facts_at(dn)
+                if f2 is None:
+                    continue
+                contradiction = any((kk, not pp) in facts and self._stable_fact(fi, kk) for (kk, pp) in f2)
+                if not contradiction:
+                    # (A and B, False) on one side against A, B both true on the other (and the dual for `or`)
+                    for (one, other) in ((f2, facts), (facts, f2)):
+                        for (kk, pp) in one:
+                            if kk.startswith('<') or not self._stable_fact(fi, kk):
+                                continue
+                            try:
+                                e = ast.parse(kk, mode='eval').body
+                            except SyntaxError:
+                                continue
+                            if isinstance(e, ast.BoolOp):
+                                want = isinstance(e.op, ast.And)
+                                if pp is (not want) and all((src(v), want) in other for v in e.values):
+                                    contradiction = True
+                if not contradiction:
+                    keep.append(dn)
+            if keep or not nodes:
+                out[k] = keep
+        return out
+
+    def judge_sink(self, s):
+        """(ok, kind label, explanation) for one (lifted) sink according to the payload rule shared by C13.OUT and C14.SINKS."""
+        fi = s.func
+        facts = s.facts
+        kinds = self.prune_kinds(fi, self.payload_kinds(fi, s.payload), facts)
+        in_handler = ('<caught:%s>' % NOT_BENEFICIAL, True) in facts
+        others = [k for k in kinds if k.startswith('other:')]
+        if 'listing' in kinds:
+            return None, 'listing', ''
+        if others:
+            return False, 'other', 'written payload is neither the do_minify result nor the bytes read: ' + others[0][6:]
+        name = s.payload.id if isinstance(s.payload, ast.Name) else None
+        # freshness: inside a loop the variable must have been (re)assigned during this iteration on every path to the sink
+        loops = []
+        cur = self.m.parent(s.call)
+        while cur is not None and cur is not fi.node:
+            if isinstance(cur, (ast.For, ast.AsyncFor, ast.While)):
+                loops.append(cur)
+            cur = self.m.parent(cur)
+        if name and loops:
+            L = loops[-1].lineno
+            if ('<assigned@%d:%s>' % (L, name), True) not in facts:
+                return False, 'stale', 'inside the loop over the source files the written variable %r is not assigned on every path of the current iteration: a value left over from an earlier file can be written' % name
+        real = set(kinds) - {'none'}
+        if 'none' in kinds and name and not ((name, True) in facts or ('%s is None' % name, False) in facts):
+            return False, 'none', 'the written variable %r may still be None here' % name
+        if real == {'minified'}:
+            # a variable whose every reaching definition is a do_minify call holds a value only once that call has returned
+            ok = not in_handler
+            return ok, 'minified', 'writes the do_minify result' if ok else 'the minified payload is written inside the not-beneficial handler'
+        if real == {'source'}:
+            return in_handler, 'source', 'writes the bytes read, inside the not-beneficial handler' if in_handler else 'writes the unminified source outside the not-beneficial handler'
+        if real == {'minified', 'source'}:
+            # every definition from the bytes read must itself sit in the not-beneficial handler
+            F = self.facts[fi.qual]
+            for dn in kinds['source']:
+                f2 = F.facts_at(dn)
+                if f2 is not None and ('<caught:%s>' % NOT_BENEFICIAL, True) not in f2:
+                    return False, 'mixed', 'the written variable is assigned the unminified source outside the not-beneficial handler (%s)' % src(dn)[:60]
+            return True, 'mixed', 'written variable holds the do_minify result, or the bytes read when assigned in the not-beneficial handler'
+        return False, 'other', 'payload kinds %s' % sorted(kinds)
